@@ -453,7 +453,7 @@ pub fn do_drop_obs(w: &Rc<World>, obs: usize, clone: usize) {
     let c = w.live_clone(oid, clone).unwrap();
     let last = w.obs.borrow()[oid].clones.iter().filter(|x| x.is_some()).count() == 1;
     if last && !w.model.borrow().can_end_observer(oid) {
-        return skipped(w, "observer pins a bind whose nodes are needed");
+        return skipped(w, "a pending observer relies on this one");
     }
     let h = w.obs.borrow_mut()[oid].clones[c].take();
     act(w, Act::DropObs { oid, clone: c });
@@ -467,7 +467,7 @@ pub fn do_disallow(w: &Rc<World>, obs: usize) {
 pub fn disallow_oid(w: &Rc<World>, oid: usize) {
     let Some(c) = w.live_clone(oid, 0) else { return skipped(w, "no handle") };
     if !w.model.borrow().can_end_observer(oid) {
-        return skipped(w, "observer pins a bind whose nodes are needed");
+        return skipped(w, "a pending observer relies on this one");
     }
     {
         let obs = w.obs.borrow();
